@@ -1106,20 +1106,33 @@ fn main() {
     )
     .unwrap();
 
-    // ---- dependency pins: every (name, version) of Cargo.lock and the requirement lines of [dependencies]
-    let lock = std::fs::read_to_string(repo.join("Cargo.lock")).unwrap_or_default();
-    let mut lock_versions: Vec<(String, String)> = vec![];
-    let mut cur_name: Option<String> = None;
-    for line in lock.lines() {
-        let l = line.trim();
-        if let Some(r) = l.strip_prefix("name = ") {
-            cur_name = Some(r.trim_matches('"').to_string());
-        } else if let Some(r) = l.strip_prefix("version = ") {
-            if let Some(n) = cur_name.take() {
-                lock_versions.push((n, r.trim_matches('"').to_string()));
+    // ---- dependency pins: every (name, version) of /repo/Cargo.lock (when the tree has one: the file is git-ignored upstream),
+    // of the lock file the correspondence harness is built with, and the requirement lines of [dependencies]
+    fn parse_lock(lock: &str) -> Vec<(String, String)> {
+        let mut out: Vec<(String, String)> = vec![];
+        let mut cur_name: Option<String> = None;
+        for line in lock.lines() {
+            let l = line.trim();
+            if let Some(r) = l.strip_prefix("name = ") {
+                cur_name = Some(r.trim_matches('"').to_string());
+            } else if let Some(r) = l.strip_prefix("version = ") {
+                if let Some(n) = cur_name.take() {
+                    out.push((n, r.trim_matches('"').to_string()));
+                }
             }
         }
+        out
     }
+    let repo_lock = std::fs::read_to_string(repo.join("Cargo.lock")).ok();
+    let lock_versions = parse_lock(repo_lock.as_deref().unwrap_or(""));
+    let harness_lock_versions = parse_lock(&std::env::args().nth(4).and_then(|p| std::fs::read_to_string(p).ok()).unwrap_or_default());
+    writeln!(o, "Definition repo_lock_present : bool := {}.\n", if repo_lock.is_some() { "true" } else { "false" }).unwrap();
+    writeln!(
+        o,
+        "Definition harness_lock_versions : list (string * string) := [\n  {}].\n",
+        harness_lock_versions.iter().map(|(k, v)| format!("({}, {})", cs(k), cs(v))).collect::<Vec<_>>().join(";\n  ")
+    )
+    .unwrap();
     let mut cargo_deps: Vec<(String, String)> = vec![];
     let mut in_deps = false;
     for line in cargo.lines() {
